@@ -300,94 +300,7 @@ def run(ctx):
                    fact=str(g[0]) if g else 'no gate', why='a zero or negative capacity is accepted',
                    key='no positive-capacity gate')
 
-    # ------------------------------------------------------------------ R4 solver post-conditions
-    # create_solution_from: both unknowns non-negative
-    sol_ref = None
-    for stmt in ast.walk(csf.node):
-        if isinstance(stmt, ast.Assign) and isinstance(stmt.value, ast.Call) and unparse(stmt.value.func).endswith('linalg.solve'):
-            sol_stmt = stmt
-    unknowns = []
-    post = ffc.post.get(id(sol_stmt))
-    if post is None:
-        raise AnalysisError('create_solution_from: solve statement unreachable')
-    for t in ast.walk(sol_stmt.targets[0]):
-        if isinstance(t, ast.Name):
-            unknowns.append(post.env[t.id])
-    uses = [(cc, ss, bb) for cc, ss, bb in ffc.calls if (is_call_to(cc, 'transfer') or
-            (isinstance(cc.func, ast.Name) and cc.func.id == 'Container')) and getattr(ss, 'lineno', 0) > sol_stmt.lineno]
-    if len(unknowns) != 2 or not uses:
-        raise AnalysisError('create_solution_from: unknowns / result construction not found')
-    for u in unknowns:
-        ok = True
-        for cc, ss, bb in uses:
-            def nonneg(c2, u=u):
-                return c2.op in ('le', 'lt') and zero(c2.left) and c2.right is u
-            if not gate_with(bb, nonneg, 'ValueError'):
-                ok = False
-        ctx.ob('C03.R4', csf, sol_stmt.lineno, f"solver unknown `{u.name}` must be non-negative before the result is built",
-               ok, fact='gate `unknown < 0 -> ValueError` dominates every construction/transfer call' if ok else 'missing',
-               why='a negative volume can be requested from the source or the solvent',
-               key='no non-negativity gate on solver unknown')
-    # create_solution: all unknowns positive, residual test over all rows
-    cs_ = model.func('Container.create_solution')
-    ffs = ctx.flow('Container.create_solution')
-    sol_stmt = None
-    for stmt in walk_no_nested(cs_.node):
-        if isinstance(stmt, ast.Assign) and isinstance(stmt.value, ast.Call) and unparse(stmt.value.func).endswith('linalg.solve'):
-            sol_stmt = stmt
-    if sol_stmt is None or id(sol_stmt) not in ffs.post:
-        raise AnalysisError('create_solution: solve statement not found')
-    xs = ffs.post[id(sol_stmt)].env[sol_stmt.targets[0].id]
-    full_matrix = strip_sub(sol_stmt.value.args[0], ffs.state_before(sol_stmt), ffs)
-    builds = [(cc, ss, bb) for cc, ss, bb in ffs.calls if isinstance(cc.func, ast.Name) and cc.func.id == 'Container'
-              and getattr(ss, 'lineno', 0) > sol_stmt.lineno]
-    floor(ctx, 'create_solution result constructions', len(builds), 2)
-    ok_pos, fact_pos = True, ''
-    for cc, ss, bb in builds:
-        def all_positive(c2):
-            # not any(x <= 0 for x in xs)
-            t = strip_refs(c2.left)
-            if c2.op != 'falsy' or not (isinstance(t, ast.Call) and isinstance(t.func, ast.Name) and t.func.id == 'any'):
-                return False
-            g = t.args[0]
-            if not isinstance(g, (ast.GeneratorExp, ast.ListComp)) or len(g.generators) != 1:
-                return False
-            if g.generators[0].iter is not xs or g.generators[0].ifs:
-                return False
-            e = g.elt
-            return isinstance(e, ast.Compare) and len(e.ops) == 1 and (
-                (isinstance(e.ops[0], ast.LtE) and isinstance(e.left, LoopVar) and zero(e.comparators[0])) or
-                (isinstance(e.ops[0], ast.GtE) and isinstance(e.comparators[0], LoopVar) and zero(e.left)))
-        g = gate_with(bb, all_positive, 'ValueError')
-        if not g:
-            ok_pos = False
-        else:
-            fact_pos = str(g[0])
-    ctx.ob('C03.R4', cs_, sol_stmt.lineno, 'every unknown of create_solution must be strictly positive', ok_pos,
-           fact=fact_pos or 'no `any(x <= 0 for x in xs) -> ValueError` over all unknowns',
-           why='a zero or negative amount of a solute or of the solvent is accepted',
-           key='no positivity gate over all unknowns')
-    # residual loop
-    res_ok, res_fact = False, 'no residual loop'
-    for stmt in walk_no_nested(cs_.node):
-        if isinstance(stmt, ast.For) and stmt.lineno > sol_stmt.lineno and all(dominates(stmt, bb[1]) or
-                                                                               _dominates_nested(stmt, bb[1]) for bb in builds):
-            it = ffs.resolved.get(id(stmt))
-            it_s = strip_refs(it)
-            if isinstance(it_s, ast.Call) and isinstance(it_s.func, ast.Name) and it_s.func.id == 'range' and \
-                    len(it_s.args) == 1:
-                a0 = strip_refs(it_s.args[0])
-                if isinstance(a0, ast.Call) and isinstance(a0.func, ast.Name) and a0.func.id == 'len' and \
-                        a0.args[0] is full_matrix:
-                    raises = [r for r in ast.walk(stmt) if isinstance(r, ast.Raise)]
-                    tests = [n for n in ast.walk(stmt) if isinstance(n, ast.If)]
-                    if raises and tests and all(('ValueError' in unparse(r)) for r in raises):
-                        tsrc = unparse(tests[0].test, 400)
-                        if 'abs(' in tsrc and sol_stmt.targets[0].id in tsrc:
-                            res_ok, res_fact = True, f"for {unparse(stmt.target)} in {show(it_s)}: if {tsrc}: raise"
-    ctx.ob('C03.R4', cs_, sol_stmt.lineno, 'residual test over all constraint rows (not only the solved ones)', res_ok,
-           fact=res_fact, why='an over-determined request whose extra rows are violated is accepted',
-           key='residual test incomplete')
+    solver_postconditions(ctx, 'C03.R4')
 
     # ------------------------------------------------------------------ R5 refusal type
     n_ref = 0
@@ -434,6 +347,102 @@ def run(ctx):
                            'operations. Decides presence/shape/strictness of the gates, not their sufficiency for all '
                            'reachable floating-point states.',
             'coverage': {'ratio_branches': len(options)}}
+
+
+def solver_postconditions(ctx, rule):
+    """Positivity / non-negativity gates on the unknowns and the residual test over all rows (C03.R4, C05.R3, C12.R4)."""
+    model = ctx.model
+    csf = model.func('Container.create_solution_from')
+    ffc = ctx.flow('Container.create_solution_from')
+    # ------------------------------------------------------------------ R4 solver post-conditions
+    # create_solution_from: both unknowns non-negative
+    sol_ref = None
+    for stmt in ast.walk(csf.node):
+        if isinstance(stmt, ast.Assign) and isinstance(stmt.value, ast.Call) and unparse(stmt.value.func).endswith('linalg.solve'):
+            sol_stmt = stmt
+    unknowns = []
+    post = ffc.post.get(id(sol_stmt))
+    if post is None:
+        raise AnalysisError('create_solution_from: solve statement unreachable')
+    for t in ast.walk(sol_stmt.targets[0]):
+        if isinstance(t, ast.Name):
+            unknowns.append(post.env[t.id])
+    uses = [(cc, ss, bb) for cc, ss, bb in ffc.calls if (is_call_to(cc, 'transfer') or
+            (isinstance(cc.func, ast.Name) and cc.func.id == 'Container')) and getattr(ss, 'lineno', 0) > sol_stmt.lineno]
+    if len(unknowns) != 2 or not uses:
+        raise AnalysisError('create_solution_from: unknowns / result construction not found')
+    for u in unknowns:
+        ok = True
+        for cc, ss, bb in uses:
+            def nonneg(c2, u=u):
+                return c2.op in ('le', 'lt') and zero(c2.left) and c2.right is u
+            if not gate_with(bb, nonneg, 'ValueError'):
+                ok = False
+        ctx.ob(rule, csf, sol_stmt.lineno, f"solver unknown `{u.name}` must be non-negative before the result is built",
+               ok, fact='gate `unknown < 0 -> ValueError` dominates every construction/transfer call' if ok else 'missing',
+               why='a negative volume can be requested from the source or the solvent',
+               key='no non-negativity gate on solver unknown')
+    # create_solution: all unknowns positive, residual test over all rows
+    cs_ = model.func('Container.create_solution')
+    ffs = ctx.flow('Container.create_solution')
+    sol_stmt = None
+    for stmt in walk_no_nested(cs_.node):
+        if isinstance(stmt, ast.Assign) and isinstance(stmt.value, ast.Call) and unparse(stmt.value.func).endswith('linalg.solve'):
+            sol_stmt = stmt
+    if sol_stmt is None or id(sol_stmt) not in ffs.post:
+        raise AnalysisError('create_solution: solve statement not found')
+    xs = ffs.post[id(sol_stmt)].env[sol_stmt.targets[0].id]
+    full_matrix = strip_sub(sol_stmt.value.args[0], ffs.state_before(sol_stmt), ffs)
+    builds = [(cc, ss, bb) for cc, ss, bb in ffs.calls if isinstance(cc.func, ast.Name) and cc.func.id == 'Container'
+              and getattr(ss, 'lineno', 0) > sol_stmt.lineno]
+    floor(ctx, 'create_solution result constructions', len(builds), 2)
+    ok_pos, fact_pos = True, ''
+    for cc, ss, bb in builds:
+        def all_positive(c2):
+            # not any(x <= 0 for x in xs)
+            t = strip_refs(c2.left)
+            if c2.op != 'falsy' or not (isinstance(t, ast.Call) and isinstance(t.func, ast.Name) and t.func.id == 'any'):
+                return False
+            g = t.args[0]
+            if not isinstance(g, (ast.GeneratorExp, ast.ListComp)) or len(g.generators) != 1:
+                return False
+            if g.generators[0].iter is not xs or g.generators[0].ifs:
+                return False
+            e = g.elt
+            return isinstance(e, ast.Compare) and len(e.ops) == 1 and (
+                (isinstance(e.ops[0], ast.LtE) and isinstance(e.left, LoopVar) and zero(e.comparators[0])) or
+                (isinstance(e.ops[0], ast.GtE) and isinstance(e.comparators[0], LoopVar) and zero(e.left)))
+        g = gate_with(bb, all_positive, 'ValueError')
+        if not g:
+            ok_pos = False
+        else:
+            fact_pos = str(g[0])
+    ctx.ob(rule, cs_, sol_stmt.lineno, 'every unknown of create_solution must be strictly positive', ok_pos,
+           fact=fact_pos or 'no `any(x <= 0 for x in xs) -> ValueError` over all unknowns',
+           why='a zero or negative amount of a solute or of the solvent is accepted',
+           key='no positivity gate over all unknowns')
+    # residual loop
+    res_ok, res_fact = False, 'no residual loop'
+    for stmt in walk_no_nested(cs_.node):
+        if isinstance(stmt, ast.For) and stmt.lineno > sol_stmt.lineno and all(dominates(stmt, bb[1]) or
+                                                                               _dominates_nested(stmt, bb[1]) for bb in builds):
+            it = ffs.resolved.get(id(stmt))
+            it_s = strip_refs(it)
+            if isinstance(it_s, ast.Call) and isinstance(it_s.func, ast.Name) and it_s.func.id == 'range' and \
+                    len(it_s.args) == 1:
+                a0 = strip_refs(it_s.args[0])
+                if isinstance(a0, ast.Call) and isinstance(a0.func, ast.Name) and a0.func.id == 'len' and \
+                        a0.args[0] is full_matrix:
+                    raises = [r for r in ast.walk(stmt) if isinstance(r, ast.Raise)]
+                    tests = [n for n in ast.walk(stmt) if isinstance(n, ast.If)]
+                    if raises and tests and all(('ValueError' in unparse(r)) for r in raises):
+                        tsrc = unparse(tests[0].test, 400)
+                        if 'abs(' in tsrc and sol_stmt.targets[0].id in tsrc:
+                            res_ok, res_fact = True, f"for {unparse(stmt.target)} in {show(it_s)}: if {tsrc}: raise"
+    ctx.ob(rule, cs_, sol_stmt.lineno, 'residual test over all constraint rows (not only the solved ones)', res_ok,
+           fact=res_fact, why='an over-determined request whose extra rows are violated is accepted',
+           key='residual test incomplete')
+
 
 
 def last_fact(state):
